@@ -497,6 +497,62 @@ pub fn run_history(h: &[Op17]) -> Result<Vec<u8>, Fail> {
                     _ => unreachable!(),
                 };
                 let addrs: Vec<Option<usize>> = (0..NT as u8).map(|i| res_addr(&mut w, i)).collect();
+                // a conflicting guard that is released BEFORE the iterator reaches its resource - or that is never
+                // reached - is no conflict: iteration borrows each resource when it yields it, not earlier
+                if let Some((hi, hex)) = held {
+                    let full: Vec<u8> = m.reg.iter().copied().filter(|i| m.present[*i as usize]).collect();
+                    let bad_cast = full.contains(&5);
+                    if let (Some(pos), false, true) = (full.iter().position(|x| *x == hi), bad_cast, hex || mutably) {
+                        for finish in [true, false] {
+                            let r = catch_unwind(AssertUnwindSafe(|| -> Option<Vec<u8>> {
+                                let g = hold(&w, hi, hex)?;
+                                let mut tags = Vec::new();
+                                if mutably {
+                                    let mut it = t.iter_mut(&w);
+                                    for _ in 0..pos {
+                                        let mut o = it.next()?;
+                                        o.bump();
+                                        tags.push(o.tag());
+                                    }
+                                    drop(g);
+                                    if finish {
+                                        for mut o in it {
+                                            o.bump();
+                                            tags.push(o.tag());
+                                        }
+                                    }
+                                } else {
+                                    let mut it = t.iter(&w);
+                                    for _ in 0..pos {
+                                        tags.push(it.next()?.tag());
+                                    }
+                                    drop(g);
+                                    if finish {
+                                        for o in it {
+                                            tags.push(o.tag());
+                                        }
+                                    }
+                                }
+                                Some(tags)
+                            }));
+                            let want: Vec<u8> = if finish { full.clone() } else { full[..pos].to_vec() };
+                            match r {
+                                Ok(Some(tags)) => {
+                                    if mutably {
+                                        for i in &tags {
+                                            m.count[*i as usize] += 1;
+                                        }
+                                    }
+                                    if tags != want {
+                                        return Err(fail("iteration-wrong-set", format!("{:?} with the guard released after {} items ({}) yielded {:?}, expected {:?}", op, pos, if finish { "then run to the end" } else { "then dropped" }, tags, want)));
+                                    }
+                                }
+                                Ok(None) => return Err(fail("iteration-wrong-set", format!("{:?}: the iterator ended before the {} items in front of the held resource were yielded", op, pos))),
+                                Err(p) => return Err(fail("iteration-panicked", format!("{:?} panicked although the guard of type {} was released after {} items, before the iterator reached it ({}): {}", op, hi, pos, if finish { "then run to the end" } else { "then dropped" }, payload_str(&*p)))),
+                            }
+                        }
+                    }
+                }
                 let guard = held.and_then(|(i, ex)| hold(&w, i, ex));
                 let held_eff = if guard.is_some() { held } else { None };
                 // expected sequence: registered & present, in first-registration order, until a conflict / bad cast
